@@ -313,6 +313,8 @@ def k8_run(carve):
         "eql": [None if a is None else a == dt.datetime(2020, 1, 2) for a in mid], "s": [None if a is None else a.strftime("%Y-%m-%d %H:%M:%S.%f") for a in mid],
         "mx": [max([x for x in (a, b) if x is not None]) for a, b in zip(mid, ts)], "h": [None if a is None else 0 for a in mid], "back": ds,
         "i2f": [2.0, None, -3.0, 0.0], "f2i": [2, None, -3, 0], "b2i": [1, None, 0, 1],
+        # generic targets pdt.Float() / pdt.Int(): the value really is converted (the next cast / operator sees a float / an int)
+        "i2F_s": ["2.0", None, "-3.0", "0.0"], "i2F_div": [1.0, None, -1.5, 0.0],
     }
     df = pl.DataFrame({"d": pl.Series(ds, dtype=pl.Date), "t": pl.Series(ts, dtype=pl.Datetime("us")), "i": [2, None, -3, 0], "f": [2.9, None, -3.9, 0.4], "b": [True, None, False, True], "h": [0, 1, 2, 3]})
     eng = sqa.create_engine("sqlite://")
@@ -323,7 +325,8 @@ def k8_run(carve):
         for be, t in (("polars", pdt.Table(df, name="t")), ("sqlite", pdt.Table("t", pdt.SqlAlchemy(eng)))):
             c = t.d.cast(pdt.Datetime())
             exprs = {"eq": c == t.t, "le": c <= t.t, "lt": c < t.t, "eql": c == dt.datetime(2020, 1, 2), "s": c.cast(pdt.String()), "mx": pdt.max(c, t.t), "h": c.dt.hour(), "back": c.cast(pdt.Date()),
-                     "i2f": t.i.cast(pdt.Float64()) + 0.0, "f2i": t.f.cast(pdt.Int64()) + 0, "b2i": t.b.cast(pdt.Int64()) + 0}
+                     "i2f": t.i.cast(pdt.Float64()) + 0.0, "f2i": t.f.cast(pdt.Int64()) + 0, "b2i": t.b.cast(pdt.Int64()) + 0,
+                     "i2F_s": t.i.cast(pdt.Float()).cast(pdt.String()), "i2F_div": t.i.cast(pdt.Float()) / 2}
             for name, e in exprs.items():
                 n += 1
                 try:
@@ -428,7 +431,7 @@ def obligations(tier):
     obs.append(Obligation("C17/K5/literal_operands", "K5", "casts of literal (const) operands agree with casts of columns, natively on both backends", k5_run,
                           functions=cfns + [fi(H.sqlite_backend.SqliteImpl.compile_cast), fi(H.polars_backend.compile_col_expr), fi(H.sql_backend.SqlImpl.compile_lit)], bounded="6 source types x 7 targets x 3 sample values x 2 backends, plus 10 nested cast chains (native execution)"))
     obs.append(Obligation("C17/K8/cast_values_in_use", "K8", "a cast result compares, orders, prints and casts back like a stored value of the target type (Date -> Datetime; numeric casts)", k8_run, functions=cfns + [fi(H.sqlite_backend.SqliteImpl.compile_cast)],
-                          bounded="11 uses of cast results x 2 backends on 4 rows"))
+                          bounded="13 uses of cast results x 2 backends on 4 rows"))
     obs.append(Obligation("C17/K7/source_forms", "K7", "cast results do not depend on the form of the source (dict / DataFrame / LazyFrame, Datetime time units)", k7_run, functions=cfns + [fi(H.polars_backend.PolarsImpl.__init__)],
                           bounded="7 source forms x 4 casts on 4 rows"))
     obs.append(Obligation("C17/K6/result_type", "K6", "x.cast(T) has type T (no cast is dropped), for columns, expressions, C-references and literals", k6_run, functions=cfns + [fi(H.col_expr_mod.ColExpr.cast)],
